@@ -42,6 +42,13 @@ def run(prog, rep, tier):
     r11_4(prog, rep)
     r11_6(prog, rep)
     r11_7(prog, rep)
+    # "looked up first among the data-frame columns": the frame the lookup sees is the frame cut down to the columns the
+    # formula is found to use - a name the extractor misses is not in that frame and silently resolves in the environment
+    # (C09's R9.4: holder and visitor coverage of var_names), reported here as R11.8
+    from . import C09
+    from ..core import reuse_rule
+    reuse_rule(rep, C09.r9_4, "R11.8", prog)
+    rep.floor("R11.8", 12)
     rep.floor("R11.1", 5)
     rep.floor("R11.3", 6)
     rep.floor("R11.4", 6)
